@@ -286,6 +286,11 @@ func runNumCall(f map[string]interface{}) M {
 		return st
 	}
 	if cerr != nil {
+		if fn == "literal" {
+			// the literal itself is the program: that it does not compile is the observation
+			st["out"] = classifyErr(cerr)
+			return st
+		}
 		st["out"] = M{"o": "bad", "why": "compile: " + cerr.Error()}
 		return st
 	}
